@@ -112,9 +112,20 @@ async fn settle() {
 }
 
 async fn run_case(c: &Case) -> CheckResult {
-    let tables = Arc::new(TableManager::new(2));
-    let addr = IpAddr::V4(PEER);
-    let rig = GrRig::new(addr);
+    run_on(c, None).await
+}
+
+/// `wire` = None: the GrRig (function level); Some: the same history over real sessions
+async fn run_on(c: &Case, mut wire: Option<WireRig>) -> CheckResult {
+    let tables = match &wire {
+        Some(w) => w.rig.tables.clone(),
+        None => Arc::new(TableManager::new(2)),
+    };
+    let addr = match &wire {
+        Some(w) => w.src,
+        None => IpAddr::V4(PEER),
+    };
+    let rig = GrRig::new(addr, &tables);
     let mut live: Option<Live> = None;
     // families kept by the last eligible drop (restart timer covers them) / by LLGR
     let mut kept_gr: Vec<Family> = Vec::new();
@@ -124,19 +135,23 @@ async fn run_case(c: &Case) -> CheckResult {
     let mut info = CaseInfo::trivial();
     let mut eligible_drop_seen = false;
 
-    for (i, op) in c.ops.iter().enumerate() {
+    'steps: for (i, op) in c.ops.iter().enumerate() {
         let mut what = "";
+        'op: {
         match op {
             Op::Up(spec) => {
                 if live.is_some() || spec.fams & 7 == 0 {
-                    continue;
+                    continue 'steps;
                 }
                 what = "established";
                 let fams = fams_of(spec.fams);
                 let gr_f: Vec<Family> = if spec.gr { fams_of(spec.gr_fams & spec.fams) } else { vec![] };
                 let sources = FAMS.iter().map(|_| Arc::new(table::Source::new(addr, IpAddr::V4(Ipv4Addr::new(10, 0, 0, 1)), 65100, 65000, Ipv4Addr::new(2, 2, 2, 2), table::PeerRole::Ebgp))).collect();
                 let _ = fams;
-                catch_async(rig.session_established_wrap(&tables, gr_f)).await.map_err(|p| p.into_failure("GrSessionEstablished"))?;
+                match wire.as_mut() {
+                    None => rig.session_established(gr_f).await,
+                    Some(w) => w.up(spec).await?,
+                }
                 live = Some(Live { spec: spec.clone(), sources, announced: BTreeSet::new(), eor: BTreeSet::new() });
                 if eligible_drop_seen {
                     info.nontrivial = true;
@@ -146,18 +161,45 @@ async fn run_case(c: &Case) -> CheckResult {
             }
             Op::FailedConnect => {
                 if live.is_some() {
-                    continue;
+                    continue 'steps;
                 }
                 what = "failed-connect";
                 let s = SessionGr { families: vec![], gr: None, llgr: None };
-                rig.session_down(&tables, false, &s, Some(SessionDownReason::IoError)).await;
+                match wire.as_mut() {
+                    None => rig.session_down(&tables, false, &s, Some(SessionDownReason::IoError)).await,
+                    Some(w) => w.failed_connect().await?,
+                }
                 if eligible_drop_seen {
                     info.nontrivial = true;
                     info.classes.push("failed-reconnect-after-helper-mode");
                 }
             }
             Op::Down(r) => {
-                let Some(l) = live.take() else { continue };
+                if let Some(w) = wire.as_mut() {
+                    if live.is_none() {
+                        if r % 9 != 6 {
+                            continue 'steps;
+                        }
+                        // forced peer-down (DisablePeer) while the session is down: pending timers fire at once
+                        what = "forced-down";
+                        w.forced_down().await?;
+                        kept_gr.clear();
+                        kept_llgr.clear();
+                        info.classes.push("forced-down-in-helper-mode");
+                    } else if r % 9 == 4 {
+                        continue 'steps; // a Cease sent by the daemon on its own is not produced over the wire
+                    }
+                }
+                // (after a forced peer-down the general invariants below apply: what is still held
+                // must be covered by an armed timer. With LLGR negotiated the daemon turns the fired
+                // restart timer into an LLGR period, so routes may remain for the LLGR stale time;
+                // the statement does not exclude that, see DESIGN.md 0A.8)
+                let Some(l) = live.take() else {
+                    if what.is_empty() {
+                        continue 'steps;
+                    }
+                    break 'op;
+                };
                 let (reason, name) = reason_of(*r);
                 what = name;
                 let fams = fams_of(l.spec.fams);
@@ -167,7 +209,10 @@ async fn run_case(c: &Case) -> CheckResult {
                 let llgr = if !llgr_f.is_empty() { Some(llgr_f.iter().map(|f| (*f, Duration::from_secs(l.spec.llgr_time as u64))).collect()) } else { None };
                 let eligible = gr.is_some() && gr_eligible(*r, l.spec.nbit);
                 let s = SessionGr { families: fams, gr, llgr };
-                rig.session_down(&tables, true, &s, reason).await;
+                match wire.as_mut() {
+                    None => rig.session_down(&tables, true, &s, reason).await,
+                    Some(w) => w.down(*r % 9).await?,
+                }
                 kept_gr = if eligible { gr_f } else { vec![] };
                 // LLGR follows GR's eligibility; without GR it applies to connection loss only
                 kept_llgr = if eligible || (s.gr.is_none() && matches!(r % 9, 0 | 1)) || (s.gr.is_some() && !eligible && matches!(r % 9, 0 | 1)) { llgr_f.clone() } else { vec![] };
@@ -178,10 +223,10 @@ async fn run_case(c: &Case) -> CheckResult {
                 last_down = Some((name, eligible || (s.llgr.is_some() && matches!(r % 9, 0 | 1))));
             }
             Op::Announce { fam, prefix, no_llgr } => {
-                let Some(l) = live.as_mut() else { continue };
+                let Some(l) = live.as_mut() else { continue 'steps };
                 let fi = *fam as usize % 3;
                 if l.spec.fams & (1 << fi) == 0 {
-                    continue;
+                    continue 'steps;
                 }
                 what = "announce";
                 let mut spec = crate::cgen::AttrSpec { origin: Some(0), as_path: Some(vec![crate::cgen::Seg { t: 2, n: 1, base: 65100, asns: vec![] }]), ..Default::default() };
@@ -194,32 +239,56 @@ async fn run_case(c: &Case) -> CheckResult {
                 } else {
                     no_llgr_marked.remove(&format!("{n:?}"));
                 }
-                let _ = tables.insert_route(l.sources[fi].clone(), FAMS[fi], PathNlri { path_id: 0, nlri: n }, Some(Nexthop::V4(Ipv4Addr::new(192, 0, 2, 1))), Arc::new(spec.build()), None, 1);
+                match wire.as_mut() {
+                    None => {
+                        let _ = tables.insert_route(l.sources[fi].clone(), FAMS[fi], PathNlri { path_id: 0, nlri: n }, Some(Nexthop::V4(Ipv4Addr::new(192, 0, 2, 1))), Arc::new(spec.build()), None, 1);
+                    }
+                    Some(w) => w.announce(FAMS[fi], n, spec.build()).await?,
+                }
                 l.announced.insert((fi, *prefix % 4));
             }
             Op::Eor(f) => {
-                let Some(l) = live.as_mut() else { continue };
+                let Some(l) = live.as_mut() else { continue 'steps };
                 let fi = *f as usize % 3;
                 if l.spec.fams & (1 << fi) == 0 {
-                    continue;
+                    continue 'steps;
                 }
                 what = "end-of-rib";
-                rig.eor(&tables, FAMS[fi]);
+                match wire.as_mut() {
+                    None => rig.eor(FAMS[fi]).await,
+                    Some(w) => w.eor(FAMS[fi]).await?,
+                }
                 l.eor.insert(fi);
             }
             Op::Advance(secs) => {
+                if wire.is_some() && live.is_some() {
+                    continue 'steps; // over the wire time passes only while the session is down (no keepalive traffic is scripted)
+                }
                 what = "time-passes";
                 tokio::time::advance(Duration::from_secs(*secs as u64)).await;
+                if let Some(w) = wire.as_mut() {
+                    w.advanced += Duration::from_secs(*secs as u64);
+                }
                 if live.is_none() && eligible_drop_seen {
                     info.nontrivial = true;
                 }
             }
         }
+        }
         settle().await;
+        if let Some(w) = wire.as_mut() {
+            w.settle().await;
+            if w.clock_moved() {
+                return Ok(CaseInfo::trivial().class("wire-inconclusive-clock-moved"));
+            }
+        }
 
         // ---- invariants -----------------------------------------------------------
         let rows = adj_in(&tables, addr, &FAMS);
-        let (gr_armed, llgr_armed, restarting) = rig.timers();
+        let (gr_armed, llgr_armed, restarting) = match &wire {
+            None => rig.timers(),
+            Some(w) => w.rig.gr_timers(addr).await,
+        };
         let wit = |f: Failure| f.with("after", what).with("down_reason", last_down.map(|d| d.0).unwrap_or("-")).with("restart_timer_armed", gr_armed).with("llgr_timers_armed", !llgr_armed.is_empty()).with("is_peer_restarting", restarting);
         match &live {
             None => {
@@ -268,21 +337,6 @@ async fn run_case(c: &Case) -> CheckResult {
     Ok(info)
 }
 
-// small adapters (the rig's establish step is synchronous)
-trait RigExt {
-    fn session_established_wrap<'a>(&'a self, tables: &'a Arc<TableManager>, gr: Vec<Family>) -> std::pin::Pin<Box<dyn std::future::Future<Output = ()> + 'a>>;
-}
-impl RigExt for GrRig {
-    fn session_established_wrap<'a>(&'a self, tables: &'a Arc<TableManager>, gr: Vec<Family>) -> std::pin::Pin<Box<dyn std::future::Future<Output = ()> + 'a>> {
-        Box::pin(async move { self.session_established(tables, gr) })
-    }
-}
-
-async fn catch_async<F: std::future::Future<Output = ()>>(f: F) -> Result<(), Panicked> {
-    f.await;
-    Ok(())
-}
-
 fn arb_spec() -> impl Strategy<Value = SessSpec> {
     (1u8..8, prop::bool::weighted(0.8), 0u8..8, prop_oneof![Just(5u16), Just(30), Just(120)], any::<bool>(), prop_oneof![3 => Just(0u8), 2 => 0u8..8], prop_oneof![Just(10u16), Just(60), Just(600)]).prop_map(|(fams, gr, gr_fams, restart, nbit, llgr_fams, llgr_time)| SessSpec { fams, gr, gr_fams, restart, nbit, llgr_fams, llgr_time })
 }
@@ -307,8 +361,297 @@ pub fn run(r: &Run) {
     r.assume("the tail of PeerSession::run (families to drop / to mark stale, which negotiated GR/LLGR parameters survive the disconnect reason) and the helper side of process_effects are repeated statement by statement in the event hook module; apply_disconnect, GrState, the timer tasks and the TableManager calls are the daemon's own; time is tokio's paused clock");
     r.assume("a received non-Cease NOTIFICATION is not generated: RFC 8538 lets it enter helper mode with the N-bit while the statement says non-Cease errors never do");
     r.prop("gr-histories", r.tier.pick(150_000, 3_000_000), || arb_case(r.tier.pick(16, 32)), check);
+    r.assume(WIRE_RULE);
+    r.prop("gr-sessions", r.tier.pick(3_000, 100_000), || arb_case(r.tier.pick(12, 24)), check_wire);
 }
 
-pub fn replay(_sub: &str, case: &Value) -> Result<CheckResult, String> {
+pub fn replay(sub: &str, case: &Value) -> Result<CheckResult, String> {
+    if sub == "gr-sessions" {
+        return Ok(check_wire(&decode_case(case)?));
+    }
     Ok(check(&decode_case(case)?))
+}
+
+// ---------------------------------------------------------------------------
+// the same histories over real sessions: a wire-level peer (this file) against the
+// daemon's accept_connection + PeerSession::run on loopback TCP, tokio's paused clock for
+// the restart / LLGR / hold timers. Nothing of the daemon is repeated: OPEN negotiation
+// (negotiate_gr / negotiate_llgr), UPDATE / End-of-RIB reception, the disconnect tail of
+// session_loop, apply_disconnect, the timer tasks, DisablePeer (force_down) all run.
+// ---------------------------------------------------------------------------
+
+pub const WIRE_RULE: &str = "gr-sessions: the same histories over real sessions: the neighbour is configured with GR (N-bit) and LLGR for all three families, hold time 30; the check is the remote peer on a loopback TCP connection: \
+OPEN with the generated Multiprotocol / Graceful-Restart (families, restart time, N-bit) / LLGR (families, stale time) capabilities, UPDATEs (optionally NO_LLGR), End-of-RIB, and session ends by FIN, RST, received Cease (admin shutdown / hard reset), \
+hold-timer expiry (clock advanced past the hold time), gRPC DisablePeer (+EnablePeer), an OPEN in Established (FSM error), an UPDATE with an over-long attribute block (UPDATE error); a connection closed before its OPEN; DisablePeer while the session is down (forced peer-down: pending timers fire). \
+Time passes (paused clock) only while the session is down. Same invariants, read from the daemon's RIB and the peer's timer slots after every step";
+
+const WIRE_AS: u32 = 65100;
+
+struct Client {
+    stream: tokio::net::TcpStream,
+    codec: bgp::PeerCodec,
+    task: Option<tokio::task::JoinHandle<()>>,
+    frames: u64,
+}
+
+pub struct WireRig {
+    pub rig: crate::event::verif::AdmitRig,
+    pub src: IpAddr,
+    client: Option<Client>,
+    /// frames the daemon has counted before the current connection
+    base: u64,
+    start: tokio::time::Instant,
+    pub advanced: Duration,
+}
+
+fn h(e: impl ToString) -> Failure {
+    Failure::new("harness", e.to_string())
+}
+
+impl WireRig {
+    pub async fn new() -> Result<WireRig, Failure> {
+        use crate::event::verif::{AdmitRig, NeighborCfg};
+        let src = IpAddr::V4(Ipv4Addr::new(127, 0, 10, 2));
+        let rig = AdmitRig::new(65000, None).await.map_err(h)?;
+        let cfg = NeighborCfg {
+            addr: src,
+            remote_asn: WIRE_AS,
+            local_asn: 0,
+            rs_client: false,
+            rr_client: false,
+            cluster_id: None,
+            admin_down: false,
+            holdtime: 30,
+            families: FAMS.iter().map(|f| (*f, 0)).collect(),
+            prefix_limit: None,
+            gr: Some((120, true, FAMS.to_vec())),
+            llgr: Some(FAMS.iter().map(|f| (*f, 3600)).collect()),
+        };
+        if !rig.add_neighbor(&cfg).await {
+            return Err(h("add_peer refuses the GR neighbour"));
+        }
+        Ok(WireRig { rig, src, client: None, base: 0, start: tokio::time::Instant::now(), advanced: Duration::ZERO })
+    }
+
+    /// the paused clock moved although the check did not advance it (runtime auto-advance while waiting for I/O)
+    pub fn clock_moved(&self) -> bool {
+        let now = tokio::time::Instant::now();
+        now.duration_since(self.start) > self.advanced + Duration::from_millis(50)
+    }
+
+    pub async fn settle(&mut self) {
+        for _ in 0..3 {
+            std::thread::sleep(Duration::from_micros(150));
+            for _ in 0..8 {
+                tokio::task::yield_now().await;
+            }
+        }
+    }
+
+    fn drain(&mut self) -> bool {
+        // returns true when the daemon closed the connection
+        let Some(c) = self.client.as_mut() else { return true };
+        let mut buf = [0u8; 8192];
+        loop {
+            match c.stream.try_read(&mut buf) {
+                Ok(0) => return true,
+                Ok(_) => {}
+                Err(e) if e.kind() == std::io::ErrorKind::WouldBlock => return false,
+                Err(_) => return true,
+            }
+        }
+    }
+
+    async fn send(&mut self, msg: &bgp::Message) -> Result<(), Failure> {
+        use tokio::io::AsyncWriteExt;
+        let base = self.base;
+        let src = self.src;
+        let Some(c) = self.client.as_mut() else { return Err(h("no connection")) };
+        let mut buf = bytes::BytesMut::new();
+        let n = c.codec.encode_to(msg, &mut buf).map_err(|e| h(format!("encode: {e:?}")))?;
+        c.stream.write_all(&buf).await.map_err(h)?;
+        c.frames += n.max(1) as u64;
+        let want = base + c.frames;
+        // the daemon has read it
+        for _ in 0..2000 {
+            self.settle().await;
+            if self.rig.rx_frames(src).await >= want {
+                return Ok(());
+            }
+            if self.drain() {
+                return Ok(()); // it closed the connection (the message was the reason, or the session was already going down)
+            }
+        }
+        Err(h("the daemon did not read a message within the real-time budget"))
+    }
+
+    async fn send_raw(&mut self, bytes: &[u8]) -> Result<(), Failure> {
+        use tokio::io::AsyncWriteExt;
+        let Some(c) = self.client.as_mut() else { return Err(h("no connection")) };
+        c.stream.write_all(bytes).await.map_err(h)?;
+        Ok(())
+    }
+
+    async fn connect(&mut self) -> Result<(), Failure> {
+        self.base = self.rig.rx_frames(self.src).await;
+        let (view, mut conn) = self.rig.connect_now(self.src, false).await.map_err(h)?;
+        if view.is_none() {
+            return Err(h("the connection was not admitted"));
+        }
+        let stream = conn.client.take().ok_or_else(|| h("no client socket"))?;
+        self.client = Some(Client { stream, codec: bgp::PeerCodec::new(), task: conn.task.take(), frames: 0 });
+        self.settle().await;
+        Ok(())
+    }
+
+    /// wait (real time, clock untouched) until the daemon's session task of the current connection has ended
+    async fn wait_task_end(&mut self) -> Result<(), Failure> {
+        let Some(mut c) = self.client.take() else { return Ok(()) };
+        for _ in 0..4000 {
+            self.settle().await;
+            let mut buf = [0u8; 8192];
+            while let Ok(n) = c.stream.try_read(&mut buf) {
+                if n == 0 {
+                    break;
+                }
+            }
+            if c.task.as_ref().is_none_or(|t| t.is_finished()) {
+                return Ok(());
+            }
+        }
+        Err(Failure::new("session-task-hangs", "the daemon's session task did not end after the connection went down".to_string()))
+    }
+
+    pub async fn up(&mut self, spec: &SessSpec) -> Result<(), Failure> {
+        self.connect().await?;
+        let fams = fams_of(spec.fams);
+        let gr_f: Vec<Family> = if spec.gr { fams_of(spec.gr_fams & spec.fams) } else { vec![] };
+        let llgr_f = fams_of(spec.llgr_fams & spec.fams);
+        let mut caps: Vec<bgp::Capability> = fams.iter().map(|f| bgp::Capability::MultiProtocol(*f)).collect();
+        caps.push(bgp::Capability::FourOctetAsNumber(WIRE_AS));
+        if spec.gr {
+            caps.push(bgp::Capability::GracefulRestart { flags: if spec.nbit { 0x4 } else { 0 }, restart_time: spec.restart, families: gr_f.iter().map(|f| (*f, 0x80)).collect() });
+        }
+        if !llgr_f.is_empty() {
+            caps.push(bgp::Capability::LongLivedGracefulRestart(llgr_f.iter().map(|f| (*f, 0x80, spec.llgr_time as u32)).collect()));
+        }
+        let open = bgp::Message::Open(bgp::Open { as_number: WIRE_AS, holdtime: bgp::HoldTime::new(30).unwrap(), router_id: 0x0202_0202, capability: caps });
+        self.send(&open).await?;
+        self.send(&bgp::Message::Keepalive).await?;
+        if let Some(c) = self.client.as_mut() {
+            for f in &fams {
+                c.codec.set_family(*f, bgp::FamilyState { addpath_rx: false, addpath_tx: false });
+            }
+        }
+        for _ in 0..2000 {
+            self.settle().await;
+            if let Some((_, p)) = self.rig.fsm_states(self.src).await
+                && p == crate::fsm::State::Established
+            {
+                self.drain();
+                return Ok(());
+            }
+        }
+        Err(h("OPEN + KEEPALIVE did not establish the session"))
+    }
+
+    pub async fn failed_connect(&mut self) -> Result<(), Failure> {
+        self.connect().await?;
+        // the remote end goes away before sending its OPEN
+        let task = self.client.as_mut().and_then(|c| c.task.take());
+        self.client = None;
+        if let Some(t) = task {
+            for _ in 0..4000 {
+                self.settle().await;
+                if t.is_finished() {
+                    return Ok(());
+                }
+            }
+            return Err(Failure::new("session-task-hangs", "the daemon's session task did not end after a connection was closed before its OPEN".to_string()));
+        }
+        Ok(())
+    }
+
+    pub async fn announce(&mut self, family: Family, nlri: packet::Nlri, attrs: Vec<packet::Attribute>) -> Result<(), Failure> {
+        let nexthop = match family {
+            Family::IPV6 => Nexthop::V6("2001:db8::1".parse().unwrap()),
+            _ => Nexthop::V4(Ipv4Addr::new(192, 0, 2, 1)),
+        };
+        let msg = bgp::Message::Update(bgp::Update::Reach { family, entries: vec![PathNlri { path_id: 0, nlri }], nexthop: Some(nexthop), attr: Arc::new(attrs) });
+        self.send(&msg).await
+    }
+
+    pub async fn eor(&mut self, family: Family) -> Result<(), Failure> {
+        self.send(&bgp::Message::Update(bgp::Update::EndOfRib(family))).await
+    }
+
+    pub async fn forced_down(&mut self) -> Result<(), Failure> {
+        self.rig.disable_peer(self.src, true).await.map_err(h)?;
+        self.settle().await;
+        Ok(())
+    }
+
+    pub async fn down(&mut self, r: u8) -> Result<(), Failure> {
+        match r {
+            0 => {}
+            1 => {
+                if let Some(c) = self.client.as_ref() {
+                    let _ = c.stream.set_linger(Some(Duration::ZERO));
+                }
+            }
+            2 => self.send(&bgp::Message::Notification(packet::Notification::CeaseAdminShutdown)).await?,
+            3 => self.send(&bgp::Message::Notification(packet::Notification::CeaseHardReset)).await?,
+            5 => {
+                // nothing is sent for longer than the negotiated hold time
+                tokio::time::advance(Duration::from_secs(31)).await;
+                self.advanced += Duration::from_secs(31);
+                return self.wait_task_end().await;
+            }
+            6 => {
+                self.rig.disable_peer(self.src, false).await.map_err(h)?;
+                self.wait_task_end().await?;
+                return self.rig.disable_peer(self.src, true).await.map_err(h);
+            }
+            7 => {
+                let open = bgp::Message::Open(bgp::Open { as_number: WIRE_AS, holdtime: bgp::HoldTime::new(30).unwrap(), router_id: 0x0202_0202, capability: vec![bgp::Capability::FourOctetAsNumber(WIRE_AS)] });
+                self.send(&open).await?;
+                return self.wait_task_end().await;
+            }
+            8 => {
+                // total path attribute length runs past the end of the message
+                let mut m = vec![0xffu8; 16];
+                m.extend_from_slice(&[0, 27, 2, 0, 0, 0, 40, 0x40, 1, 1, 0]);
+                self.send_raw(&m).await?;
+                return self.wait_task_end().await;
+            }
+            _ => return Err(h("reason not produced over the wire")),
+        }
+        // the remote end goes away
+        if let Some(c) = self.client.as_mut() {
+            use tokio::io::AsyncWriteExt;
+            if r != 1 {
+                let _ = c.stream.shutdown().await;
+            }
+        }
+        let task = self.client.as_mut().and_then(|c| c.task.take());
+        self.client = None; // closes the socket (RST when linger 0)
+        if let Some(t) = task {
+            for _ in 0..4000 {
+                self.settle().await;
+                if t.is_finished() {
+                    return Ok(());
+                }
+            }
+            return Err(Failure::new("session-task-hangs", "the daemon's session task did not end after the connection was closed".to_string()));
+        }
+        Ok(())
+    }
+}
+
+pub fn check_wire(c: &Case) -> CheckResult {
+    let rt = tokio::runtime::Builder::new_current_thread().enable_all().start_paused(true).event_interval(1).build().map_err(|e| Failure::new("harness", e.to_string()))?;
+    rt.block_on(async {
+        let w = WireRig::new().await?;
+        run_on(c, Some(w)).await
+    })
 }
